@@ -472,7 +472,11 @@ func condDynArm(e hclsyntax.Expression, ctxA *hcl.EvalContext) bool {
 
 func condDroppedArmFails(e hclsyntax.Expression, ctxA, ctxC *hcl.EvalContext) bool {
 	w := &condW{f: func(ce *hclsyntax.ConditionalExpr, ch func(*hcl.EvalContext) *hcl.EvalContext) bool {
+		var resid [2]cty.Type // the failing unselected arm's residual type, abstract and concrete
+		k := 0
 		fails := func(ctx *hcl.EvalContext) (bool, bool) {
+			k++
+			resid[k-1] = cty.NilType
 			cv, cd := ce.Condition.Value(ch(ctx))
 			if cd.HasErrors() {
 				return false, false
@@ -490,11 +494,19 @@ func condDroppedArmFails(e hclsyntax.Expression, ctxA, ctxC *hcl.EvalContext) bo
 			if cv.False() {
 				other = ce.TrueResult
 			}
-			_, od := other.Value(ch(ctx))
+			ov, od := other.Value(ch(ctx))
+			if od.HasErrors() {
+				resid[k-1] = ov.Type()
+			}
 			return od.HasErrors(), true
 		}
 		fa, da := fails(ctxA)
 		fc, dc := fails(ctxC)
+		if da && dc && fa && fc && resid[0] != cty.NilType && resid[1] != cty.NilType && !resid[0].Equals(resid[1]) {
+			// fails in both runs, with residual values of different types: the dropped failure still
+			// decides the result type differently (st unknown set: st.*.a leaves list(dyn); st null: dyn)
+			return true
+		}
 		return da && dc && fa != fc
 	}}
 	hclsyntax.Walk(e, w)
